@@ -111,12 +111,15 @@ for pid in ["C01","C02","C03","C04","C05","C08","C09","C10","C11","C12","C13","C
 # --- additions after the seeding rounds (appended to the level texts) --------------------------------------------
 EXTRA_TEXT = {
     "C01": " Also after failed calls: balance and smart queries through App equal the committed state. Address / registry differences following a rolled-back instantiation are attributed here, too.",
-    "C02": " A rolled-back instantiation leaves no trace in later addresses or in the registry.",
+    "C02": " A rolled-back instantiation leaves no trace in later addresses or in the registry. Chains of 12 to 22 nested sub-messages (innermost failing or not, caught at some level or at none) are part of the histories.",
+    "C03": " Chains of 12 to 22 nested sub-messages with a reply plan at every level are part of the histories.",
+    "C06": " Towers of 20 to 48 caches nested in one another and programs of 130 to 220 operations in one layer are part of the workload.",
+    "C11": " A registry-scale pass stores 66 000 codes (thorough: 70 000) and instantiates hundreds (thorough: 66 000) of contracts: ids consecutive, sampled ids around the byte and two-byte boundaries answer with their own checksum / creator / code, every instance has the derived address, all addresses distinct, every instance keeps its own record.",
     "C04": " Includes event types that already start with wasm- or equal entry-point names and data that is itself an encoded execute / instantiate response.",
     "C05": " Histories also run on chains built with MockApiBech32 / MockApiBech32m and with respelled addresses (rejected by every codec); signers include non-addresses such as the empty string.",
     "C07": " Several operations on one held view object (mutable and read-only, incl. redundant writes) are compared read by read; range_keys / range_values are projections of range.",
     "C08": " Own storage iterated in descending order at entry and after the call's own writes equals the model; writes and removals through App::contract_storage_mut land in that contract's key space only. Some histories run on a chain with a user-written codec for plain case-sensitive addresses whose address generator names contracts Vault, vault, VAULT, vault/, vaul, ... : each is a contract of its own.",
-    "C09": " Denominations include near misses of one another (other letter case, a prefix, an extension): each is a denomination of its own.",
+    "C09": " Denominations include near misses of one another (other letter case, a prefix, an extension): each is a denomination of its own. One history in eight runs on a chain with plain case-sensitive addresses (accounts Alice, alice, ALICE, alic, a relay contract Vault next to an account vault).",
     "C14": " Coins in a near miss of the bonded denomination (other letter case, padded, a prefix, an extension) are rejected like any other denomination, although the delegators hold such coins.",
     "C10": " After a failed call App queries equal the committed state; staking queries equal the raw staking state; smart queries are answered by the recorded code. The key-only and value-only iterations of a query's read-only view list what its range lists.",
     "C12": " Codes assembled by ContractWrapper::new without reply / sudo / migrate entry points: a migration to a code without migrate fails and changes nothing. Admin-less contracts reject every signer incl. the empty string.",
